@@ -38,6 +38,7 @@ def ref_dtw(case, inner):
 
 def run(ctx):
     from dtaidistance import dtw, dtw_ndim, ed
+    from dtaidistance import dtw_cc
     res = Result()
     res.rule = ("random pairs of (length x d) series, d in 1..4, all DTW settings, both inner distances, list-of-2-D and "
                 "3-D containers: distance / warping_paths / warping_path / distance_matrix / ub_euclidean of both engines "
@@ -58,7 +59,7 @@ def run(ctx):
             continue
         if c["inner"] == "abs":
             c["max_step"] = None
-        if k % 7 == 0 and (not c.get("penalty") or dc.npoints(c)[0] == dc.npoints(c)[1]) and not c.get("max_step") \
+        if k % 3 == 1 and (not c.get("penalty") or dc.npoints(c)[0] == dc.npoints(c)[1]) and not c.get("max_step") \
                 and c["inner"] == "sq":
             c["use_pruning"] = True
         cases.append(c)
@@ -117,6 +118,18 @@ def run(ctx):
             exp_ub = impl.canon(dc.expected_from_internal(case, out["ed"]))
             if not agree(ub, exp_ub):
                 res.violations.append({"clause": "ndim Euclidean bound", "case": case, "got": ub, "expected": exp_ub})
+            # the C engine's bound: exported routine and `only_ub` (no psi: the bound ignores relaxation)
+            ub_c = call(lambda: impl.canon(dtw_cc.ub_euclidean_ndim(np.ascontiguousarray(s1), np.ascontiguousarray(s2))))
+            if not agree(ub_c, exp_ub):
+                res.violations.append({"clause": "ndim Euclidean bound (C engine)", "case": case, "got": ub_c,
+                                       "expected": exp_ub})
+            ub_o = [call(lambda: impl.canon(dtw_ndim.distance(s1, s2, only_ub=True))),
+                    call(lambda: impl.canon(dtw_ndim.distance_fast(s1, s2, only_ub=True)))]
+            for eng, u in zip(("python", "C"), ub_o):
+                if not agree(u, exp_ub):
+                    res.violations.append({"clause": "ndim distance(only_ub=True) is the Euclidean bound", "engine": eng,
+                                           "case": case, "got": u, "expected": exp_ub})
+            res.hit("ub_unequal_lengths" if dc.npoints(case)[0] != dc.npoints(case)[1] else "ub_equal_lengths")
         else:
             exp = impl.canon(ref_dtw(case, "abs"))
             for eng, d in (("python", d_py), ("C", d_c)):
